@@ -24,6 +24,11 @@ def run_shard(args):
 
 def check(tier, seed, t0):
     shards = _hist.plan(tier, seed, quick=(12, 90, 1), thorough=(14, 150, 6))
+    for i, a in enumerate(shards):
+        if i % 3 == 1:
+            # an account whose git configuration asks for line-ending conversion on check-in: what the server stores
+            # and serves, and the ETags it hands out, must not depend on it
+            a["server_gitconfig"] = "[core]\n\tautocrlf = input\n[user]\n\tname = srv\n\temail = srv@example.com\n"
     for i, b in enumerate(["vdir", "bare-mem", "bare-disk", "tree"]):
         shards.append({"mode": "store", "backend": b, "seed": seed * 100 + 60 + i, "steps": 200 if tier == "quick" else 1500, "histories": 2 if tier == "quick" else 6})
     for i in range(4 if tier == "quick" else 12):
@@ -38,7 +43,8 @@ def check(tier, seed, t0):
               ("reverts", c.get("op:put_revert", 0), 20 * k), ("re-serialisations", c.get("op:put_reser", 0), 10 * k),
               ("etag re-observed after other steps", c.get("etag_reobserved", 0), 500 * k), ("store-API etag observations", c.get("etag_observations", 0), 1000 * k),
               ("restarts", c.get("restarts", 0), 3), ("(ETag, body) pairs of GETs concurrent with overwrites", c.get("concurrent_pairs_judged:get", 0), 300 * (1 if tier == "quick" else 6)),
-              ("overwrites during concurrent runs", c.get("concurrent_writes", 0), 100)]
+              ("overwrites during concurrent runs", c.get("concurrent_writes", 0), 100),
+              ("histories under an account with core.autocrlf=input", c.get("histories_with_a_git_configuration_for_the_server_account", 0), 3)]
     for v in monitors.C02Monitor.VIEWS:
         guards.append(("view " + v, c.get("view:" + v, 0), 100 * k))
     return common.finish(PROP, tier, seed, "exploration", merged, failures, RULE, t0, guards=guards,
